@@ -19,7 +19,12 @@ abbrev P (α : Type) := List String → Option (α × List String)
 def pV (s : String) : Option V :=
   let body := (s.drop 1).toString
   if s.startsWith "i" then body.toInt?.map V.int
-  else if s.startsWith "d" then body.toInt?.map V.dec
+  else if s.startsWith "d" then
+    match body.splitOn "e" with
+    | [n, sc] => match n.toInt?, sc.toNat? with
+      | some n, some sc => some (.dec n sc)
+      | _, _ => none
+    | _ => none
   else if s.startsWith "s" then (unhexStr body).map V.str
   else if s == "b0" then some (.bool false) else if s == "b1" then some (.bool true)
   else if s.startsWith "e" then (unhexStr body).map V.enum
@@ -27,7 +32,7 @@ def pV (s : String) : Option V :=
 
 def showV : V → String
   | .int i => "i" ++ toString i
-  | .dec n => "d" ++ toString n
+  | .dec n sc => "d" ++ toString n ++ "e" ++ toString sc
   | .str s => "s" ++ hexStr s
   | .bool b => if b then "b1" else "b0"
   | .enum l => "e" ++ hexStr l
